@@ -9,11 +9,11 @@ package main
 // executed and no external solver is used.
 
 import (
-	"os"
 	"fmt"
 	"go/token"
 	"go/types"
 	"math/big"
+	"os"
 	"sort"
 	"strings"
 
@@ -23,12 +23,12 @@ import (
 // Cons is the constraint L <= 0.
 type Cons struct{ L Lin }
 
-func le(a, b Lin) Cons   { return Cons{a.Sub(b)} }                        // a <= b
-func lt(a, b Lin) Cons   { return Cons{a.Sub(b).Add(linConst(1))} }       // a < b
-func eq(a, b Lin) []Cons { return []Cons{le(a, b), le(b, a)} }            // a == b
-func ge(a, b Lin) Cons   { return le(b, a) }                              // a >= b
-func geC(a Lin, c int64) Cons { return le(linConst(c), a) }               // a >= c
-func leC(a Lin, c int64) Cons { return le(a, linConst(c)) }               // a <= c
+func le(a, b Lin) Cons        { return Cons{a.Sub(b)} }                  // a <= b
+func lt(a, b Lin) Cons        { return Cons{a.Sub(b).Add(linConst(1))} } // a < b
+func eq(a, b Lin) []Cons      { return []Cons{le(a, b), le(b, a)} }      // a == b
+func ge(a, b Lin) Cons        { return le(b, a) }                        // a >= b
+func geC(a Lin, c int64) Cons { return le(linConst(c), a) }              // a >= c
+func leC(a Lin, c int64) Cons { return le(a, linConst(c)) }              // a <= c
 
 // ---- Fourier–Motzkin ----------------------------------------------------------
 
@@ -178,7 +178,7 @@ type Bounds struct {
 }
 
 type ival struct {
-	lo, hi     int64
+	lo, hi       int64
 	hasLo, hasHi bool
 }
 
@@ -1580,6 +1580,21 @@ func (b *Bounds) CheckFunc(fn *ssa.Function) []BoundObl {
 				return
 			}
 			o := BoundObl{Instr: in, Kind: "make", Desc: "make len " + x.Len.Name()}
+			// a size that is a small multiple of lengths of slices that already exist (plus a
+			// bounded constant) allocates no more than a few times what is held anyway
+			if l := b.p.newLin().Of(x.Len); len(l.T) > 0 && l.C >= 0 && l.C <= 1<<20 {
+				prop := true
+				for name, co := range l.T {
+					if !strings.HasPrefix(name, "len(") || co < 1 || co > 4 {
+						prop = false
+					}
+				}
+				if prop {
+					o.OK, o.Why = true, "proportional to data already held: "+l.String()
+					out = append(out, o)
+					return
+				}
+			}
 			o.OK, o.Why = b.Prove(fn, in, func(s *scope, pr *proof) []Cons {
 				n := s.lin(x.Len, pr)
 				return []Cons{geC(n, 0), leC(n, 1<<20)}
